@@ -417,6 +417,11 @@ class Run:
             self.run_crosscheck()
         except Exception as e:  # noqa: BLE001
             self.crosscheck.append(dict(solver="cvc5", status=f"cross-check crashed: {type(e).__name__}: {e}"[:200]))
+        for reason, text in (("time-budget", "paths left unexplored when an item's wall-clock budget ran out (cut reason 'time-budget')"),
+                             ("solver-unknown", "paths whose branch feasibility z3 left undecided within 60 s + 180 s (cut reason 'solver-unknown')"),
+                             ("depth", "paths deeper than 200 decisions (cut reason 'depth')")):
+            if self.stats.cut_reasons.get(reason):
+                self.out_of_claim(f"{self.stats.cut_reasons[reason]} {text}")
         wall = time.time() - self.t0
         n_obl = len(self.obligations)
         holds = sum(1 for o in self.obligations if o["verdict"] == "holds")
